@@ -44,6 +44,12 @@ static void prf(void)
               ascon_prf_init(&s, key); ascon_prf_absorb(&s, msg, i1); ascon_prf_absorb(&s, msg + i1, 0); ascon_prf_absorb(&s, msg + i1, il - i1);
               ascon_prf_squeeze(&s, o, o1); ascon_prf_squeeze(&s, o + o1, 0); ascon_prf_squeeze(&s, o + o1, o2 - o1); ascon_prf_squeeze(&s, o + o2, ol - o2); ascon_prf_free(&s);
               cmpo("prf:incremental-chunked", o, exp, ol, "inlen/outlen/split-in/split-out", il, ol, i1, o1); memset(o, 0xAA, ol); }
+            /* every pair of split points of the longest output, for a few input lengths: three squeezes whose boundaries meet every position of the 16-byte output block */
+            if (ol == maxout && (il == 0 || il == 5 || il == 32 || il == maxin))
+                for (int p1 = 0; p1 <= ol; p1++) for (int p2 = p1; p2 <= ol; p2++) {
+                    ascon_prf_state_t s; ascon_prf_init(&s, key); ascon_prf_absorb(&s, HX_OPT(msg, il), il);
+                    ascon_prf_squeeze(&s, o, p1); ascon_prf_squeeze(&s, o + p1, p2 - p1); ascon_prf_squeeze(&s, o + p2, ol - p2); ascon_prf_free(&s);
+                    cmpo("prf:incremental-all-splits", o, exp, ol, "inlen/outlen/split-out-1/split-out-2", il, ol, p1, p2); memset(o, 0xAA, ol); }
             uint8_t *e2 = malloc(ol + 1); ref_prf(key, ol, msg, il, e2, ol);
             ascon_prf_fixed(o, ol, HX_OPT(msg, il), il, key);
             cmpo("prf:fixed", o, e2, ol, "inlen/outlen", il, ol, 0, 0);
